@@ -813,6 +813,15 @@ impl World {
                     }
                 }
             }
+            Ctx::CatchUp { member, .. } if *member == me => {
+                // C05: the node was handed a peer's copy of its OWN entry; the owner is never behind a copy, so neither
+                // its key-values, versions, watermark nor heartbeat may move
+                if let (Some(o0), Some(o1)) = (old.copies.get(&me), new.copies.get(&me)) {
+                    if !o0.same_content(o1) || o0.hb != o1.hb {
+                        new_findings.push(Finding::new(&["C05"], "owner.changed_by_catch_up", format!("slot{slot}: own state changed when a peer's copy of the node's own entry was handed to the catch-up entry point: (gc {}, mv {}, hb {}) {} entries -> (gc {}, mv {}, hb {}) {} entries", o0.gc, o0.mv, o0.hb, o0.kvs.len(), o1.gc, o1.mv, o1.hb, o1.kvs.len())));
+                    }
+                }
+            }
             Ctx::Eval => {
                 self.check_membership_after_eval(slot, &old, &new, now, &mut new_findings);
                 self.check_watch_after_eval(slot, &new, &mut new_findings);
@@ -1528,7 +1537,11 @@ impl World {
         if n == src || !self.slots[n].up || !self.slots[src].up || self.cfg.cluster_of[n] != self.cfg.cluster_of[src] {
             return;
         }
-        let cands: Vec<usize> = self.slots[src].snap.copies.keys().cloned().filter(|m| *m != self.slots[n].member).collect();
+        // a peer's snapshot also holds the requesting node's own entry: an application that replays the whole snapshot
+        // hands it back too (one call in four here), and the owner's own state must not move because of it (C05)
+        let own = self.slots[n].member;
+        let feed_own = self.rng.random_range(0..4u32) == 0 && self.slots[src].snap.copies.contains_key(&own);
+        let cands: Vec<usize> = self.slots[src].snap.copies.keys().cloned().filter(|m| (*m == own) == feed_own).collect();
         if cands.is_empty() {
             return;
         }
@@ -1557,6 +1570,9 @@ impl World {
             return;
         }
         self.stats.inc("catch_up_calls");
+        if m == own {
+            self.stats.inc("catch_up_calls_feeding_the_node_its_own_entry");
+        }
         self.note(format!("catch-up slot{n} <- member{m} as held by slot{src} (gc {gc}, mv {mv})"));
         self.observe(n, Ctx::CatchUp { member: m, was_removed });
     }
